@@ -91,6 +91,13 @@ func (alloc *BootMemAllocator) AllocFrame() (mm.Frame, *kernel.Error) {
 			alloc.lastAllocFrame++
 		}
 
+		// The jump over the kernel image may land below the first frame
+		// of this region (e.g. the image sits in the partial page at the
+		// end of the previous region)
+		if alloc.lastAllocFrame < regionStartFrame {
+			alloc.lastAllocFrame = regionStartFrame
+		}
+
 		// The above adjustment might push lastAllocFrame outside of the
 		// region end (e.g kernel ends at last page in the region)
 		if alloc.lastAllocFrame > regionEndFrame {
